@@ -510,7 +510,7 @@ func (o *oracles) afterPost(j *jobRec) {
 
 // battery is the fixed set of searches used to compare views.
 func (o *oracles) battery() []string {
-	b := []string{"sport:80", "cport:20000:30000", "data:\"FLAG\"", "cdata:alpha sort:id", "sbytes:100: sort:-id", "chost:10.0.1.0/24", "protocol:udp", "id:1:4", "sort:ftime", "sort:-ftime limit:3", "sort:id limit:2", "data:\"[a-z]beta\" or sport:443", "-data:\"passwd\" sort:cbytes,id", "ftime:\"2020-09-13 000000:\" sort:ltime,id", "host:fd00::1:0/112", "chost:10.0.0.0/8 sort:id", "host:fd00::/16 sort:id", "-chost:10.0.0.0/8 sort:id", "-shost:fd00::/16 sort:id", "@s:id:0 ftime:@s:ltime@: sort:id", "@s:id:1 ltime::@s:ftime@+10s sort:id", "@s:id:2 ftime:@s:ftime@-30s:@s:ltime@+30s sort:id"}
+	b := []string{"sport:80", "cport:20000:30000", "data:\"FLAG\"", "cdata:alpha sort:id", "sbytes:100: sort:-id", "chost:10.0.1.0/24", "protocol:udp", "id:1:4", "sort:ftime", "sort:-ftime limit:3", "sort:id limit:2", "data:\"[a-z]beta\" or sport:443", "-data:\"passwd\" sort:cbytes,id", "ftime:\"2020-09-13 000000:\" sort:ltime,id", "host:fd00::1:0/112", "sort:chost,id", "sort:-shost,id limit:3", "chost:10.0.0.0/8 sort:id", "host:fd00::/16 sort:id", "-chost:10.0.0.0/8 sort:id", "-shost:fd00::/16 sort:id", "@s:id:0 ftime:@s:ltime@: sort:id", "@s:id:1 ltime::@s:ftime@+10s sort:id", "@s:id:2 ftime:@s:ftime@-30s:@s:ltime@+30s sort:id"}
 	// time filters with bounds inside the capture (per-file time ranges are used for pruning)
 	for _, off := range []int64{3, 20, 61, 200, 700} {
 		t := time.Unix(o.s.plan.Net.BaseUnix+off, 0).UTC().Format("2006-01-02 150405")
